@@ -158,6 +158,17 @@ def bound_modules():
                ['X::<u16, 2>::A(7)', 'X::<u16, 2>::B { b: [7, 8] }']),
               ('pub struct X<T> { pub a: r#T, pub c: ::core::marker::PhantomData<r#T> }',
                ['X { a: 7u16, c: ::core::marker::PhantomData }'])]
+    # generic items that mention themselves through `Self` (a `Self`-only field type names no parameter and gets no bound of its
+    # own - `Option<Box<X<T>>>: Debug` on the impl for `X<T>` would be a cycle, E0275 at every USE of the impl): formatted values
+    decls += [('pub struct X<T> { pub v: T, pub next: Option<Box<Self>> }',
+               ['X { v: 7u16, next: None }', 'X { v: 7u16, next: Some(Box::new(X { v: 8u16, next: None })) }']),
+              ('pub struct X<T>(pub T, pub Vec<Self>);', ['X(7u16, vec![X(8u16, vec![]), X(9u16, vec![])])']),
+              ('pub struct X<const N: usize> { pub a: [u8; N], pub n: Option<Box<Self>> }',
+               ['X::<2> { a: [1, 2], n: Some(Box::new(X { a: [3, 4], n: None })) }']),
+              ('pub enum X<T> { A(T), B { b: Option<Box<Self>> }, C(Vec<Self>, T) }',
+               ['X::A(7u16)', 'X::B { b: Some(Box::new(X::A(7u16))) }', 'X::C(vec![X::A(1u16), X::B { b: None }], 2u16)']),
+              ("pub struct X<'a, T> { pub v: &'a T, pub up: Option<&'a Self> }",
+               ['X { v: &7u16, up: Some(&X { v: &8u16, up: None }) }'])]
     import re as _re
     for k, (decl, vals) in enumerate(decls):
         for mode in ('attr', 'derive'):
@@ -168,7 +179,7 @@ def bound_modules():
             src = [head + ' ' + decl, 'pub mod twin { #[allow(unused_imports)] use super::*; #[derive(Debug)] %s }' % clean, 'pub fn run() {']
             n = 0
             for vi, v in enumerate(vals):
-                tv = 'twin::' + v.replace('C(5, 0)', 'C(5)')
+                tv = _re.sub(r'\bX\b', 'twin::X', v.replace('C(5, 0)', 'C(5)'))
                 if 'transparent' in decl and v.startswith('X::C'):
                     tv = '7u16'
                 for si, spec in enumerate(SPECS):
